@@ -410,7 +410,7 @@ def mutate_structural(rng, r):
     evs = events_of(r)
     t = payload_table(r)
     kind = rng.choice(['del', 'dup', 'swap', 'wrongid', 'port', 'follower', 'illegal', 'table', 'rawlen', 'bytes', 'trunc', 'splitter',
-                       'deepmeta', 'badmeta', 'startblk', 'endblk', 'header', 'insert'])
+                       'deepmeta', 'badmeta', 'startblk', 'endblk', 'header', 'insert', 'unoccupy'])
     md = r.metadata
     raw_len = None
     desc = kind
@@ -470,6 +470,15 @@ def mutate_structural(rng, r):
             b[rng.randrange(len(b))] = rng.randrange(256)
         r2 = Replay(r.ver, bytes(b), r.ports, r.frames, r.end, r.end_blk, r.metadata, r.gecko)
         return assemble(r2, evs, table=t), 'startblk'
+    elif kind == 'unoccupy':
+        # ports the Game Start declares empty (player type 3) or of an invalid type, while their frame events are still there
+        b = bytearray(r.start_blk)
+        every = rng.random() < 0.6
+        for i in range(4):
+            if every or rng.random() < 0.5:
+                b[4 + 0x60 + 0x24 * i + 1] = rng.choice([3, 3, 3, 4, 255])
+        r2 = Replay(r.ver, bytes(b), r.ports, r.frames, r.end, r.end_blk, r.metadata, r.gecko)
+        return assemble(r2, evs, table=t), 'unoccupy'
     elif kind == 'endblk' and r.end:
         i = [k for k, e in enumerate(evs) if e[0] == 'end'][0]
         b = bytearray(evs[i][1]); b[rng.randrange(1, len(b))] = rng.randrange(256); evs[i] = ('end', bytes(b))
